@@ -226,3 +226,202 @@ Definition c18_param_case (n : nat) (p : option nat) (passes : nat) (log : list 
    are multiples of k, the requests of the model are then the k-fold of those for n/k and cs/k
    (Proofs/ChunksBufP.v:slices_scale), and the harness hands over the logged requests divided by k *)
 Definition scale_slice (k : nat) (se : nat * nat) : nat * nat := (k * fst se, k * snd se).
+
+
+(* ---------- several readers alive at the same time: the product model ----------
+   A process may hold several reader objects at once (a data and a random catalogue processed in lock-step, a second
+   reader opened, restarted, probed or closed while the first is in the middle of a pass, a catalog created from another
+   file in between).  The state of such a WORLD is the list of the states of its readers (None = not open); an operation
+   names the reader it is applied to and changes that component only.  Reader k is the machine (init k, next k,
+   rewinds k) of the section above, fuel k bounding the number of chunks of a pass. *)
+Inductive life_op := LOpen | LClose | LDo (op : rd_op).
+
+Fixpoint upd {A} (k : nat) (x : A) (l : list A) : list A :=
+  match l, k with
+  | [], _ => []
+  | _ :: r, O => x :: r
+  | y :: r, S k' => y :: upd k' x r
+  end.
+
+Section World.
+  Context {St Rq : Type}.
+  Context (init : nat -> St) (next : nat -> St -> option (St * Rq)) (rewinds : nat -> St -> bool) (fuel : nat -> nat).
+
+  (* one reader object through its life: constructed (a new object, whatever was there), used, closed *)
+  Definition slot_step (k : nat) (s : option St) (o : life_op) : option St * list Rq :=
+    match o, s with
+    | LOpen, _ => (Some (init k), [])
+    | LClose, _ => (None, [])
+    | LDo op, Some st => let '(st1, q) := rd_step (init k) (next k) (rewinds k) (fuel k) st op in (Some st1, q)
+    | LDo _, None => (None, [])
+    end.
+  Fixpoint slot_trace (k : nat) (s : option St) (ops : list life_op) : list (list Rq) :=
+    match ops with
+    | [] => []
+    | o :: r => let '(s1, q) := slot_step k s o in q :: slot_trace k s1 r
+    end.
+  Fixpoint slot_state (k : nat) (s : option St) (ops : list life_op) : option St :=
+    match ops with
+    | [] => s
+    | o :: r => slot_state k (fst (slot_step k s o)) r
+    end.
+
+  (* the world: an operation on reader k changes component k only *)
+  Definition w_step (w : list (option St)) (o : nat * life_op) : list (option St) * list Rq :=
+    match nth_error w (fst o) with
+    | None => (w, [])
+    | Some s => let '(s1, q) := slot_step (fst o) s (snd o) in (upd (fst o) s1 w, q)
+    end.
+  Fixpoint w_trace (w : list (option St)) (ops : list (nat * life_op)) : list (list Rq) :=
+    match ops with
+    | [] => []
+    | o :: r => let '(w1, q) := w_step w o in q :: w_trace w1 r
+    end.
+  Fixpoint w_state (w : list (option St)) (ops : list (nat * life_op)) : list (option St) :=
+    match ops with
+    | [] => w
+    | o :: r => w_state (fst (w_step w o)) r
+    end.
+End World.
+
+(* the operations addressed to reader k, and what was delivered in answer to them *)
+Definition proj {O} (k : nat) (ops : list (nat * O)) : list O :=
+  map snd (filter (fun o => fst o =? k) ops).
+Definition outs_of {O Q} (k : nat) (ops : list (nat * O)) (tr : list Q) : list Q :=
+  map snd (filter (fun oq => fst (fst oq) =? k) (combine ops tr)).
+
+(* --- the readers of the library as ONE machine: what a next() requests (row groups; none for the offset readers)
+       and which records it delivers (row numbers of the reader's own source) --- *)
+Inductive rcfg :=
+| COff (ids : bool) (n cs : nat)              (* data frame / HDF5 / FITS (ids = true), random generator (ids = false) *)
+| CPq (cs : nat) (groups : list (list nat)).  (* Parquet: the rows of every row group *)
+Definition u_n (c : rcfg) : nat := match c with COff _ n _ => n | CPq _ g => length (concat g) end.
+Definition u_cs (c : rcfg) : nat := match c with COff _ _ cs => cs | CPq cs _ => cs end.
+Definition u_rows (c : rcfg) : list nat := match c with COff _ n _ => seq 0 n | CPq _ g => concat g end.
+Definition u_ids (c : rcfg) : bool := match c with COff ids _ _ => ids | CPq _ _ => true end.
+Definition u_init (c : rcfg) : pq_state nat := match c with COff _ _ _ => (0, 0, [], []) | CPq _ g => pq_init g end.
+Definition u_next (c : rcfg) (st : pq_state nat) : option (pq_state nat * (list nat * list nat)) :=
+  match c with
+  | COff _ n cs => let '(s, _, _, _) := st in
+                   match off_next n cs s with
+                   | None => None
+                   | Some (s1, se) => Some ((s1, 0, [], []), ([], range se))
+                   end
+  | CPq cs g => pq_next (length (concat g)) cs st
+  end.
+Definition cfg_at (cfgs : list rcfg) (k : nat) : rcfg := nth k cfgs (COff true 0 1).
+Definition uw_trace (cfgs : list rcfg) :=
+  w_trace (fun k => u_init (cfg_at cfgs k)) (fun k => u_next (cfg_at cfgs k)) (fun _ => rewinds_always)
+          (fun k => u_n (cfg_at cfgs k)).
+Definition u_slot_trace (c : rcfg) :=
+  slot_trace (fun _ => u_init c) (fun _ => u_next c) (fun _ => rewinds_always) (fun _ => u_n c) 0.
+(* Parquet file given by the sizes of its row groups: rows numbered consecutively *)
+Definition rows_of_sizes (sizes : list nat) : list (list nat) :=
+  fst (fold_left (fun '(acc, s) g => (acc ++ [seq s g], s + g)) sizes ([], 0)).
+
+(* --- the variant that is NOT the code: the row-group cache is one object shared by all Parquet readers of the process
+       (every reader keeps its own offset and row-group cursor); rewinding any reader empties THE cache --- *)
+Definition sh_slot (A : Type) : Type := (nat * nat * list (list A))%type.
+Definition sh_world (A : Type) : Type := (list (list A) * list (sh_slot A))%type.
+Section Shared.
+  Context {A : Type}.
+  Context (cfg : nat -> nat * list (list A)).     (* reader k: (chunk size, row groups of its file) *)
+  Definition sh_n (k : nat) : nat := length (concat (snd (cfg k))).
+  Definition sh_rewind (k : nat) (w : sh_world A) : sh_world A := ([], upd k (0, 0, snd (cfg k)) (snd w)).
+  Definition sh_next (k : nat) (w : sh_world A) : option (sh_world A * (list nat * list A)) :=
+    match nth_error (snd w) k with
+    | None => None
+    | Some (s, off, file) =>
+        match pq_next (sh_n k) (fst (cfg k)) (s, off, fst w, file) with
+        | None => None
+        | Some ((s1, off1, cache1, file1), out) => Some ((cache1, upd k (s1, off1, file1) (snd w)), out)
+        end
+    end.
+  Definition sh_step (w : sh_world A) (o : nat * rd_op) : sh_world A * list (list nat * list A) :=
+    match snd o with
+    | RdIter => (sh_rewind (fst o) w, [])
+    | RdNext j => rd_nexts (sh_next (fst o)) j w
+    | RdPass => rd_nexts (sh_next (fst o)) (sh_n (fst o)) (sh_rewind (fst o) w)
+    end.
+  Fixpoint sh_trace (w : sh_world A) (ops : list (nat * rd_op)) : list (list (list nat * list A)) :=
+    match ops with
+    | [] => []
+    | o :: r => let '(w1, q) := sh_step w o in q :: sh_trace w1 r
+    end.
+  Definition sh_init (readers : nat) : sh_world A := ([], map (fun k => (0, 0, snd (cfg k))) (seq 0 readers)).
+End Shared.
+
+(* --- checker for the tie.  obs = per operation of the interleaving what the addressed reader was SEEN to do: for every
+       next() the row groups it requested and the rows it delivered (numbered within the reader's OWN source; a record of
+       another source carries a number beyond every source); None where the harness cannot see the chunks (get_probe,
+       catalog creation).
+       stream_ok is the statement of the property for one reader, evaluated on the observation alone (no model): between
+       two rewinds the delivered rows are 0, 1, 2, ... in order, in chunks of 1..cs, never beyond n; a next() that
+       delivered nothing and a complete pass come only when all n were delivered; the rows requested and not yet
+       delivered stay below cs + the largest row group. --- *)
+Definition obs_t : Type := option (list (list nat * list nat)).
+Definition gsize (c : rcfg) (i : nat) : nat := match c with COff _ _ _ => 0 | CPq _ g => length (nth i g []) end.
+Definition maxg (c : rcfg) : nat := match c with COff _ _ _ => 0 | CPq _ g => fold_right Nat.max 0 (map (@length nat) g) end.
+(* state: rows delivered since the last rewind, rows requested since the last rewind; flags: stream, buffer *)
+Fixpoint nexts_ok (c : rcfg) (pos loaded : nat) (outs : list (list nat * list nat)) : (nat * nat) * (bool * bool) :=
+  match outs with
+  | [] => ((pos, loaded), (true, true))
+  | (reqs, rows) :: r =>
+      let len := length rows in
+      let loaded1 := loaded + fold_right Nat.add 0 (map (gsize c) reqs) in
+      let here := (1 <=? len) && (len <=? u_cs c) && (pos + len <=? u_n c) &&
+                  (negb (u_ids c) || nlist_eqb rows (seq pos len)) in
+      let buf := (loaded1 - pos <? u_cs c + maxg c) || (loaded1 =? 0) in
+      let '(st, (a, b)) := nexts_ok c (pos + len) loaded1 r in
+      (st, (here && a, buf && b))
+  end.
+Fixpoint stream_ok (c : rcfg) (pos loaded : nat) (l : list (life_op * obs_t)) : bool * bool :=
+  match l with
+  | [] => (true, true)
+  | (o, ob) :: r =>
+      match o, ob with
+      | LDo (RdNext j), Some outs =>
+          let '((pos1, loaded1), (a, b)) := nexts_ok c pos loaded outs in
+          let done := (length outs <=? j) && ((j <=? length outs) || (pos1 =? u_n c)) in
+          let '(a2, b2) := stream_ok c pos1 loaded1 r in (a && done && a2, b && b2)
+      | LDo RdPass, Some outs =>
+          let '((pos1, loaded1), (a, b)) := nexts_ok c 0 0 outs in
+          let '(a2, b2) := stream_ok c pos1 loaded1 r in (a && (pos1 =? u_n c) && a2, b && b2)
+      | LDo RdPass, None => stream_ok c (u_n c) (u_n c) r
+      | LDo (RdNext _), None => stream_ok c pos loaded r
+      | _, _ => stream_ok c 0 0 r
+      end
+  end.
+Definition out_eqb (ids : bool) (a b : list nat * list nat) : bool :=
+  if ids then nlist_eqb (snd a) (snd b) else length (snd a) =? length (snd b).
+(* flags: [rows delivered = the world model, operation by operation (where seen);
+           row groups requested = the world model (where seen);
+           every reader's stream satisfies the property; every reader's buffer bound] *)
+Definition c18_world_case (cfgs : list rcfg) (ops : list (nat * life_op)) (obs : list obs_t) : nat :=
+  let tr := uw_trace cfgs (repeat None (length cfgs)) ops in
+  let seen := combine ops (combine tr obs) in
+  let per := map (fun k => stream_ok (cfg_at cfgs k) 0 0 (combine (proj k ops) (outs_of k ops obs))) (seq 0 (length cfgs)) in
+  code [(length ops =? length obs) &&
+        forallb (fun x => match snd (snd x) with
+                          | None => true
+                          | Some outs => list_eqb (out_eqb (u_ids (cfg_at cfgs (fst (fst x))))) (fst (snd x)) outs
+                          end) seen;
+        forallb (fun x => match snd (snd x) with
+                          | None => true
+                          | Some outs => list_eqb nlist_eqb (map fst (fst (snd x))) (map fst outs)
+                          end) seen;
+        forallb fst per;
+        forallb snd per].
+(* the same for one reader driven alone (the control run of the harness) *)
+Definition c18_solo_case (c : rcfg) (ops : list life_op) (obs : list obs_t) : nat :=
+  c18_world_case [c] (map (fun o => (0, o)) ops) obs.
+
+(* two files of 10 and 7 rows (the rows of file 1 numbered from 100), row groups of 3, both read in chunks of 4 *)
+Definition sh_example (k : nat) : nat * list (list nat) :=
+  match k with
+  | 0 => (4, [[0;1;2];[3;4;5];[6;7;8];[9]])
+  | _ => (4, [[100;101;102];[103;104;105];[106]])
+  end.
+Definition sh_stream (k : nat) (ops : list (nat * rd_op)) : list nat :=
+  concat (map snd (concat (outs_of k ops (sh_trace sh_example (sh_init sh_example 2) ops)))).
+Definition ops_of (k : nat) (ops : list (nat * rd_op)) : list (nat * rd_op) := filter (fun o => fst o =? k) ops.
